@@ -371,6 +371,13 @@ def _render_fn_lines(p, fid, ctx, prelude):
         if k == "call":
             args = ", ".join(_arg_src(ctx, f, a) for a in s["args"])
             lines.append("    x%d = %s(%s)" % (i, ctx.fn_expr(s["fn"]), args))
+        elif k == "keep" and s.get("cond"):
+            # the kept call sits in a branch that a (tracked, boolean) module variable switches on and off
+            pe = _path_expr(ctx, s["path"], s.get("path_style", "lit"), prelude)
+            parts = [pe, ctx.fn_expr(s["fn"], need_bare=True)] + [_arg_src(ctx, f, a) for a in s["args"]]
+            lines.append("    x%d = None" % i)
+            lines.append("    if %s:" % ctx.var_expr(s["cond"], "bare"))
+            lines.append("        x%d = dds.keep(%s)" % (i, ", ".join(parts)))
         elif k == "keep":
             pe = _path_expr(ctx, s["path"], s.get("path_style", "lit"), prelude)
             parts = [pe, ctx.fn_expr(s["fn"], need_bare=True)] + [_arg_src(ctx, f, a) for a in s["args"]]
@@ -601,6 +608,9 @@ def _own_items(p, fid, memo, stack=(), externals=None):
                 if c.get("var"):
                     v = p["vars"][c["var"]]
                     items.append(("V", v["name"], v["value"]))
+            if s.get("cond"):
+                v = p["vars"][s["cond"]]
+                items.append(("V", v["name"], v["value"]))
             for a in s.get("args", []):
                 if a["k"] == "var":
                     v = p["vars"][a["var"]]
